@@ -6,6 +6,7 @@
 -/
 import MpirProofs.Lemmas.SieveTop
 import MpirProofs.Lemmas.SwingAsm
+import MpirProofs.Lemmas.Goet
 namespace Mpir.Sieve
 open Mpir Mpir.Numth
 
@@ -223,5 +224,113 @@ theorem two_fac_ui_spec (n : ℕ) (hn : n < B) : mpz_2fac_ui n = n‼ := by
   · exact two_fac_even k hn (mpz_oddfac_1_eq k (by omega))
   · exact two_fac_odd (2 * k + 1) hn (by omega) (fun _ => hsw)
 example : mpz_2fac_ui 1801 = doubleFactorial 1801 ∧ mpz_2fac_ui 1801 = mpz_oddfac_1 1801 1 := by decide +kernel
+
+/-! ## Goetgheluck's binomial (mpz/bin_uiui.c:585-702) -/
+
+/-- **Kummer's theorem in the form COUNT_A_PRIME computes it.**  For a prime p, k ≤ n < 2^64:
+    v_p(n!) = v_p(k!) + v_p((n−k)!) + (number of borrows subtracting k from n in base p), where the borrows are
+    counted by the chain `mb += b % p; b /= p; ma = a % p; a /= p; if (ma < mb) {mb = 1; count} else mb = 0;
+    while (a >= p)` (`kumExp`); hence v_p(binomial(n,k)) = kumExp p 64 n k 0, and the loop of COUNT_A_PRIME
+    (`countPowers`) multiplies prod by p^(that number) as long as the limb product does not wrap — which it
+    cannot for prod ≤ max_prod = GMP_NUMB_MAX/n since p^(borrows) ≤ n. -/
+theorem kummer_borrow_chain (p n k : ℕ) (hp : p.Prime) (hn : n < B) (hk : k ≤ n) :
+    padicValNat p (n.choose k) = kumExp p 64 n k 0 ∧
+    (1 ≤ n → p ^ kumExp p 64 n k 0 ≤ n) ∧
+    ∀ pr, pr * p ^ kumExp p 64 n k 0 < B → countPowers p 64 n k 0 pr = pr * p ^ kumExp p 64 n k 0 := by
+  have : Fact p.Prime := ⟨hp⟩
+  refine ⟨?_, fun h1 => pow_kumExp_le p hp.two_le 64 n k 0 (by omega) (by omega) h1,
+    fun pr h => countPowers_eq p hp.pos 64 n k 0 pr h⟩
+  have h := Nat.choose_mul_factorial_mul_factorial hk
+  have hc0 : n.choose k ≠ 0 := Nat.pos_iff_ne_zero.1 (Nat.choose_pos hk)
+  have hv : padicValNat p (n.choose k) + padicValNat p k ! + padicValNat p (n - k)! = padicValNat p n ! := by
+    rw [← h, padicValNat.mul (Nat.mul_ne_zero hc0 (Nat.factorial_ne_zero _)) (Nat.factorial_ne_zero _),
+      padicValNat.mul hc0 (Nat.factorial_ne_zero _)]
+  have hkl := kummer_legendre p 64 n k 0 (by omega) (by omega) hn
+  simp only [Nat.sub_zero] at hkl
+  omega
+example : kumExp 7 64 100 50 0 = 0 ∧ kumExp 3 64 100 50 0 = 4 ∧ kumExp 5 64 1000 320 0 = 2 ∧
+    countPowers 3 64 100 50 0 5 = 5 * 3 ^ 4 ∧ (Nat.choose 100 50) % 3 ^ 4 = 0 ∧ (Nat.choose 100 50) % 3 ^ 5 ≠ 0 := by decide +kernel
+
+/-- **The prime ranges of mpz_goetgheluck_bin_uiui** (2k ≤ n): n/p < p ⇒ exponent = [n mod p < k mod p]
+    (SH_COUNT_A_PRIME); n/2 < p ≤ n−k ⇒ 0 (skipped); n−k < p ≤ n ⇒ 1 (stored); and the exponent of 2 is
+    popc(n−k) + popc(k) − popc(n), with 2^that ≤ n (so `CNST_LIMB(1) << count` is a limb). -/
+theorem goetgheluck_prime_ranges (p n k : ℕ) (hp : 3 ≤ p) (hk : 2 * k ≤ n) :
+    (n / p < p → kumExp p 64 n k 0 = if n % p < k % p then 1 else 0) ∧
+    (n / 2 < p → p ≤ n - k → kumExp p 64 n k 0 = 0) ∧
+    (n - k < p → p ≤ n → kumExp p 64 n k 0 = 1) ∧
+    (1 ≤ n → n < B → padicValNat 2 (n.choose k) = popcount (n - k) + popcount k - popcount n ∧
+      2 ^ (popcount (n - k) + popcount k - popcount n) ≤ n) := by
+  refine ⟨fun h => ?_, fun h1 h2 => ?_, fun h1 h2 => ?_, fun h1 hn => ⟨two_adic_choose n k hn (by omega), two_pow_count_le n k hn (by omega) h1⟩⟩
+  · have : ¬ (n / p ≥ p) := by omega
+    simp [kumExp, this]
+  · have hd := div_eq_one (n := n) (x := p) h1 (by omega)
+    have hm := mod_eq_sub_of_lt_two_mul (n := n) (x := p) (by omega) (by omega)
+    have hkm : k % p = k := Nat.mod_eq_of_lt (by omega)
+    have h1x : ¬ (1 ≥ p) := by omega
+    have hb : ¬ (n - p < k) := by omega
+    simp [kumExp, hd, hm, hkm, h1x, hb]
+  · have hd := div_eq_one (n := n) (x := p) (by omega) h2
+    have hm := mod_eq_sub_of_lt_two_mul (n := n) (x := p) (by omega) (by omega)
+    have hkm : k % p = k := Nat.mod_eq_of_lt (by omega)
+    have h1x : ¬ (1 ≥ p) := by omega
+    have hb : n - p < k := by omega
+    simp [kumExp, hd, hm, hkm, h1x, hb]
+example : kumExp 53 64 1000 320 0 = 0 ∧ 1000 % 53 = 46 ∧ 320 % 53 = 2 ∧ kumExp 41 64 1000 320 0 = 1 ∧ 1000 % 41 = 16 ∧ 320 % 41 = 33 ∧
+    kumExp 677 64 1000 320 0 = 0 ∧ kumExp 683 64 1000 320 0 = 1 := by decide +kernel
+
+/-- **mpz_goetgheluck_bin_uiui (n, k) = binomial(n, k)** for every 25 ≤ n < 2^64 (`ASSERT (n >= 25)`), 2k ≤ n (mpz_bin_uiui
+    passes MIN(k, n−k)) and `ASSERT (n_to_bit (n - k) < n_to_bit (n))` — the latter holds whenever k ≥ 6.  Model:
+    power of two, COUNT_A_PRIME for 3 and the sieve's primes up to limb_apprsqrt n, SH_COUNT_A_PRIME up to n/2
+    with max_prod doubled, FACTOR_LIST_STORE on (n−k, n], no limb product wraps, mpz_prodlimbs = product. -/
+theorem goetgheluck_bin_uiui_spec (n k : ℕ) (h25 : 25 ≤ n) (hn : n < B) (hk : 2 * k ≤ n)
+    (hassert : n_to_bit (n - k) < n_to_bit n) : goetgheluck_bin_uiui n k = n.choose k := by
+  rw [n_to_bit_eq_nb _ (by omega) (by omega), n_to_bit_eq_nb n (by omega) hn] at hassert
+  exact goetgheluck_eq_choose n k h25 hn hk hassert
+example : goetgheluck_bin_uiui 100 40 = 13746234145802811501267369720 ∧ Nat.choose 100 40 = 13746234145802811501267369720 := by
+  decide +kernel
+
+/-- through the dispatcher: whenever mpz_bin_uiui selects Goetgheluck's algorithm (k ≥ BIN_GOETGHELUCK_THRESHOLD,
+    k > n/16, beyond the small-k tables) the result is binomial(n, k) — for every n < 2^64 and every k. -/
+theorem bin_uiui_goetgheluck_spec (n k0 : ℕ) (hn : n < B) (hd : (binDispatch n k0).1 = BinAlg.goetgheluck) :
+    mpz_bin_uiui n k0 = some (n.choose k0) := by
+  have hT : 6 ≤ ODD_FACTORIAL_TABLE_LIMIT := by decide
+  have hE : 25 ≤ ODD_FACTORIAL_EXTTABLE_LIMIT := by decide
+  have hdisp : binDispatch n k0 = (BinAlg.goetgheluck, min k0 (n - k0)) ∧ ¬ n < k0 ∧
+      ¬ min k0 (n - k0) ≤ ODD_FACTORIAL_TABLE_LIMIT ∧ ¬ n ≤ ODD_FACTORIAL_EXTTABLE_LIMIT := by
+    unfold binDispatch at hd ⊢
+    by_cases h1 : n < k0
+    · simp [h1] at hd
+    · simp only [h1, if_false] at hd ⊢
+      by_cases h2 : min k0 (n - k0) < 2
+      · simp [h2] at hd
+      · simp only [h2, if_false] at hd ⊢
+        by_cases h3 : n ≤ ODD_FACTORIAL_EXTTABLE_LIMIT
+        · simp [h3] at hd
+        · simp only [h3, if_false] at hd ⊢
+          by_cases h4 : min k0 (n - k0) ≤ ODD_FACTORIAL_TABLE_LIMIT
+          · simp [h4] at hd
+          · simp only [h4, if_false] at hd ⊢
+            by_cases h5 : BIN_UIUI_ENABLE_SMALLDC ≠ 0 ∧ min k0 (n - k0) ≤
+                (if BIN_UIUI_RECURSIVE_SMALLDC ≠ 0 then ODD_CENTRAL_BINOMIAL_TABLE_LIMIT else ODD_FACTORIAL_TABLE_LIMIT) * 2
+            · rw [if_pos h5] at hd; simp at hd
+            · rw [if_neg h5] at hd ⊢
+              by_cases h6 : aboveThreshold (min k0 (n - k0)) BIN_GOETGHELUCK_THRESHOLD = true ∧ min k0 (n - k0) > n / 16
+              · rw [if_pos h6]; exact ⟨rfl, not_false, not_false, not_false⟩
+              · rw [if_neg h6] at hd; simp at hd
+  obtain ⟨hdisp, h1, h4, h3⟩ := hdisp
+  unfold mpz_bin_uiui
+  rw [hdisp]
+  simp only
+  have hk0 : k0 ≤ n := by omega
+  have hm1 : min k0 (n - k0) ≤ k0 := Nat.min_le_left _ _
+  have hm2 : min k0 (n - k0) ≤ n - k0 := Nat.min_le_right _ _
+  have hsym : n.choose (min k0 (n - k0)) = n.choose k0 := by
+    rcases Nat.le_total k0 (n - k0) with h | h
+    · rw [Nat.min_eq_left h]
+    · rw [Nat.min_eq_right h, Nat.choose_symm hk0]
+  rw [← hsym]
+  generalize min k0 (n - k0) = k at *
+  rw [goetgheluck_eq_choose n k (by omega) hn (by omega) (by rw [nb_eq, nb_eq]; omega)]
+example : binDispatch 20000 1251 = (.goetgheluck, 1251) ∧ binDispatch 20016 1251 = (.bdiv, 1251) := by decide +kernel
 
 end Mpir.Numth
